@@ -28,7 +28,8 @@
    string contains no `"` and no `#` but may contain anything else between its quotation marks - runs of blanks,
    a blank right after the opening or before the closing quote, a tab - and means exactly that text; units are upper
    case; integers are canonical (no `+`, no leading zeros, no `-0`); host patterns are quoted; proxy targets are
-   separated by `,` without blanks; no key occurs twice in a section; a route has at most one of
+   separated by `,` without blanks; a `"` occurs nowhere but around a string (where one does - `"""`, `route "/a" {` -
+   the spec takes it literally AND accepts a rejection: Result.lenient); no key occurs twice in a section; a route has at most one of
    file|directory|proxy|redirect; known keys carry a token of their documented type unless a fault says otherwise.
    Outside these choices Meaning still returns something (what the code does today) but nothing is generated there. *)
 EXTENDS Integers, Sequences, FiniteSets, TLC
@@ -45,6 +46,7 @@ DevNames == {"ParseSizePanic",    \* parse_size slices the last *byte* off an un
              "HostQuoteLax"}      \* `host "x {` keeps the stray quote in the pattern; `host " {` panics
 BugNames == {"ReverseRoutes", "FirstPatternOnly", "Threads0Accepted", "LineMinus1", "DefaultLogInfo",
              "ErrFileMain", "LastTargetOnly",
+             "LoneQuoteSlice",       \* a value that is one lone `"` "starts and ends with a quote": value[1..len-1] panics
              "CollapseWhitespace"}   \* key/value split with split_whitespace() and re-joined by single blanks:
                                      \* white space inside a quoted string is collapsed   \* plausible bugs, only used by sensitivity configs
 
@@ -135,7 +137,8 @@ NatStr(t)    == DecStr(Magnitude(NumTok(t)))
 
 (***************************************************************************)
 (* Part 2: abstract syntax.  One record shape for every entry.             *)
-(*   t  "key" | "sec" | "host" | "route" | "inc"                           *)
+(*   t  "key" | "sec" | "host" | "route" | "inc" | "raw" (a stray line k,  *)
+(*      only ever produced by the ValueOnNextLine fault, right after a key)*)
 (*   k  key / section name            v  value token as written ("" = the  *)
 (*   ps patterns (host: one quoted     value is missing); for "inc" and    *)
 (*      token; route: bare words)      for blacklist `file` the path is `@`*)
@@ -203,10 +206,11 @@ FirstFault(f, es, i, pre, files) ==
                  ELSE IF TokKind(e.v) = "bad" THEN Loc(f, p, "line", "at", "bad-value")
                  ELSE IF TokKind(e.v) = "toobig" THEN Loc(f, p, "line", "any", "too-big")
                  ELSE NoLoc)
+             ELSE IF e.t = "raw" THEN Loc(f, p, "line", "at", "stray-line")
              ELSE IF e.t = "inc" THEN
                 (IF e.v = "" THEN Loc(f, p, "line", "at", "missing-value")
                  ELSE IF ~IsStrLit(e.v) THEN Loc(f, p, "line", "at", "bad-include")
-                 ELSE IF e.f = 0 THEN Loc(f, p, "line", "at", "no-such-file")
+                 ELSE IF e.f = 0 \/ StrBody(e.v) # "@" THEN Loc(f, p, "line", "at", "no-such-file")   \* `include ""`, `include """`
                  ELSE FirstFault(e.f, files[e.f], 1, <<>>, files))
              ELSE
                 (IF e.ob # "{" THEN Loc(f, p, "open", IF e.ob = "" THEN "from" ELSE "at", "open-brace")
@@ -274,7 +278,7 @@ Violations(root, bl) ==
   \cup Chk("threads", HasKey(root, "threads") /\ (~IsNatUpTo(KeyTok(root, "threads"), MaxU64)
                                                   \/ NatStr(KeyTok(root, "threads")) = "0"))
   \cup Chk("timeout", HasKey(root, "timeout") /\ ~IsNatUpTo(KeyTok(root, "timeout"), MaxU64))
-  \cup Chk("blacklist-file", HasKey(b, "file") /\ (~bl.exists \/ \E i \in 1..Len(bl.ips) : bl.ips[i] \notin GoodIps))
+  \cup Chk("blacklist-file", HasKey(b, "file") /\ (AsString(KeyTok(b, "file")) # "@" \/ ~bl.exists \/ \E i \in 1..Len(bl.ips) : bl.ips[i] \notin GoodIps))
   \cup Chk("blacklist-mode", HasKey(b, "mode") /\ AsString(KeyTok(b, "mode")) \notin {"block", "forbidden"})
   \cup Chk("log-level", HasKey(l, "level") /\ AsString(KeyTok(l, "level")) \notin LogLevels)
   \cup Chk("log-console", HasKey(l, "console") /\ ~IsBoolTok(KeyTok(l, "console")))
@@ -303,7 +307,16 @@ Described(root, bl) ==
    default_routes |-> Routes(root),
    hosts          |-> Hosts(root)]
 
-Result(kind, cfg, loc, why) == [ok |-> kind = "ok", kind |-> kind, cfg |-> cfg, loc |-> loc, why |-> why]
+\* a quotation mark inside a string or in a route pattern: the documentation has no escapes and does not say; the
+\* literal reading (what the code does today) and a rejection are both accepted - a crash or any other meaning is not
+RECURSIVE OddQuotes(_)
+OddQuotes(es) == \E i \in 1..Len(es) :
+   LET e == es[i] IN
+   \/ e.t = "key" /\ IsStrLit(e.v) /\ IndexOf(StrBody(e.v), QUOTE) # 0
+   \/ e.t = "route" /\ \E j \in 1..Len(e.ps) : IndexOf(e.ps[j], QUOTE) # 0
+   \/ e.t = "host" /\ IsStrLit(e.ps[1]) /\ IndexOf(StrBody(e.ps[1]), QUOTE) # 0
+   \/ OddQuotes(e.es)
+Result(kind, cfg, loc, why) == [ok |-> kind = "ok", kind |-> kind, cfg |-> cfg, loc |-> loc, why |-> why, lenient |-> FALSE]
 
 Meaning(ast) ==
   LET sf == SyntaxFault(ast) IN
@@ -311,7 +324,7 @@ Meaning(ast) ==
   ELSE LET root == Expand(ast.srv.es, ast.files)
            v == Violations(root, ast.bl) IN
        IF v # {} THEN Result("validation", NullCfg, NoLoc, CHOOSE x \in v : TRUE)
-       ELSE Result("ok", Described(root, ast.bl), NoLoc, "")
+       ELSE [Result("ok", Described(root, ast.bl), NoLoc, "") EXCEPT !.lenient = OddQuotes(root)]
 
 (***************************************************************************)
 (* Part 4: single-fault mutants.  A fault = [cls, f, p, ast] : class, the  *)
@@ -349,11 +362,25 @@ Variants(e) ==
        <<"NonAscii", [e EXCEPT !.ob = "{" \o NA]>>, <<"NonAscii", [e EXCEPT !.cb = "}" \o NA]>> }
      \cup (IF e.t = "host" THEN { <<"UnterminatedQuote", [e EXCEPT !.ps = <<SubSeq(@[1], 1, Len(@[1]) - 1)>>]>>,
                                   <<"UnterminatedQuote", [e EXCEPT !.ps = <<From(@[1], 2)>>]>>,
-                                  <<"NonAscii", [e EXCEPT !.ps = <<InsStr(@[1], Len(@[1]) - 1, NA)>>]>> }
+                                  <<"NonAscii", [e EXCEPT !.ps = <<InsStr(@[1], Len(@[1]) - 1, NA)>>]>>,
+                                  <<"LoneQuote", [e EXCEPT !.ps = <<QUOTE>>]>>,               \* `""` that lost a quote
+                                  <<"UnterminatedQuote", [e EXCEPT !.ps = <<QUOTE \o "x">>]>>,
+                                  <<"UnterminatedQuote", [e EXCEPT !.ps = <<"x" \o QUOTE>>]>>,
+                                  <<"EmptyString", [e EXCEPT !.ps = <<Q("")>>]>>,
+                                  <<"TripleQuote", [e EXCEPT !.ps = <<Q(QUOTE)>>]>> }
            ELSE {})
-     \cup (IF e.t = "route" THEN { <<"NonAscii", [e EXCEPT !.ps = [@ EXCEPT ![Len(@)] = @ \o NA]]>> } ELSE {})
+     \cup (IF e.t = "route" THEN { <<"NonAscii", [e EXCEPT !.ps = [@ EXCEPT ![Len(@)] = @ \o NA]]>>,
+                                   <<"QuoteInPattern", [e EXCEPT !.ps = <<QUOTE>>]>>,
+                                   <<"QuoteInPattern", [e EXCEPT !.ps = [@ EXCEPT ![1] = QUOTE \o @]]>>,
+                                   <<"QuoteInPattern", [e EXCEPT !.ps = [@ EXCEPT ![Len(@)] = Q(@)]]>> } ELSE {})
    ELSE
-     { <<"MissingValue", [e EXCEPT !.v = ""]>> }
+     { <<"MissingValue", [e EXCEPT !.v = ""]>>,
+       <<"BlankValue", [e EXCEPT !.v = "   "]>>,                 \* nothing but blanks after the key
+       <<"LoneQuote", [e EXCEPT !.v = QUOTE]>>,                  \* an empty string that lost one quotation mark
+       <<"UnterminatedQuote", [e EXCEPT !.v = QUOTE \o "x"]>>,   \* a string of length 1 that lost one
+       <<"UnterminatedQuote", [e EXCEPT !.v = "x" \o QUOTE]>>,
+       <<"EmptyString", [e EXCEPT !.v = Q("")]>>,                \* `""`: the empty string (or, for include, no file)
+       <<"TripleQuote", [e EXCEPT !.v = Q(QUOTE)]>> }            \* `"""`: lenient, see OddQuotes
      \cup { <<"NonAscii", [e EXCEPT !.v = InsStr(@, i, NA)]>> : i \in NAPositions(e.v) }
      \cup (IF e.t = "key" THEN { <<"NonAscii", [e EXCEPT !.k = InsStr(@, i, NA)]>> : i \in {0, Len(e.k)} } ELSE {})
      \cup (IF IsStrLit(e.v) THEN { <<"UnterminatedQuote", [e EXCEPT !.v = SubSeq(@, 1, Len(@) - 1)]>>,
@@ -376,6 +403,9 @@ Variants(e) ==
                                                     <<"BadBool", [e EXCEPT !.v = "maybe"]>> } ELSE {}))
 
 
+RECURSIVE InsAfter(_, _, _)
+InsAfter(es, p, e) == IF Len(p) = 1 THEN SubSeq(es, 1, p[1]) \o <<e>> \o SubSeq(es, p[1] + 1, Len(es))
+                      ELSE [es EXCEPT ![p[1]].es = InsAfter(@, Tail(p), e)]
 RouteTypeKeys == {"file", "directory", "proxy", "redirect", "websocket"}
 Untyped(es) == SelectSeq(es, LAMBDA x : ~(x.t = "key" /\ x.k \in RouteTypeKeys))
 Fault(cls, f, p, a) == [a EXCEPT !.fault = [cls |-> cls, f |-> f, p |-> p]]
@@ -388,6 +418,13 @@ Faults(ast) ==
                 THEN { Fault("RouteWithoutType", tk[1], tk[2],
                              Damage(ast, tk[1], tk[2], [EntryAt(TopOf(ast, tk[1]), tk[2]) EXCEPT !.es = Untyped(@)])) }
                 ELSE {}) : tk \in Tokens(ast) }
+  \* the key stands alone and what should be its value (or a lone quote) follows on the next line
+  \cup UNION { (LET e == EntryAt(TopOf(ast, tk[1]), tk[2]) IN
+                IF e.t = "key" THEN
+                   { Fault("ValueOnNextLine", tk[1], tk[2],
+                           WithTop(ast, tk[1], InsAfter(PutAt(TopOf(ast, tk[1]), tk[2], [e EXCEPT !.v = ""]), tk[2], [K(x, "") EXCEPT !.t = "raw"]))) :
+                        x \in {QUOTE, e.v} }
+                ELSE {}) : tk \in Tokens(ast) }
   \cup (IF HasKey(SubEntries(Expand(ast.srv.es, ast.files), "blacklist"), "file")
         THEN { Fault("NoBlacklistFile", 0, <<>>, [ast EXCEPT !.bl.exists = FALSE]) }
              \cup { Fault("BadIp", 0, <<>>, [ast EXCEPT !.bl.ips = Append(@, x)]) : x \in BadIps }
@@ -395,7 +432,7 @@ Faults(ast) ==
 
 \* the classes whose mutants violate the *syntax*: Meaning must point at the damaged token
 SyntaxClasses == {"MissingCloseBrace", "MissingOpenBrace", "MissingValue", "BadNumber", "UnknownUnit",
-                  "UnterminatedQuote", "NoSuchInclude", "BadBool"}
+                  "UnterminatedQuote", "NoSuchInclude", "BadBool", "LoneQuote", "BlankValue", "ValueOnNextLine"}
 \* the classes whose mutants break a validation rule
 RuleClasses == {"OutOfRange", "BadEnum", "RouteWithoutType", "NoBlacklistFile", "BadIp"}
 
@@ -419,7 +456,7 @@ RECURSIVE RenderEs(_, _, _, _, _)
 RenderEs(es, i, pre, d, L) ==
   IF i > Len(es) THEN <<>>
   ELSE LET e == es[i]  p == Append(pre, i)  ind == Rep(L.ind, d) IN
-   (IF e.t = "key" THEN
+   (IF e.t \in {"key", "raw"} THEN
       <<AL(ind \o e.k \o (IF e.v = "" THEN "" ELSE L.sep \o Subst(e.v, BlName)) \o L.cmt, p, "line")>>
     ELSE IF e.t = "inc" THEN
       <<AL(ind \o "include" \o (IF e.v = "" THEN "" ELSE L.sep \o Subst(e.v, FileName(e.f))) \o L.cmt, p, "line")>>
@@ -494,7 +531,8 @@ ParseSize(s) ==
        ELSE IF LastCh(s) \in DigitCh THEN (IF RustI64(s) THEN Sz("ok", s) ELSE Sz("err", ""))
        ELSE Sz("err", "")
 Classify(key, value) ==
-  IF IsStrLit(value) THEN [st |-> "ok", node |-> N("String", key, StrBody(value), <<>>)]   \* wildcard_match("\"*\"", value)
+  IF "LoneQuoteSlice" \in Dev /\ value = QUOTE THEN [st |-> "panic", node |-> N("String", key, "", <<>>)]
+  ELSE IF IsStrLit(value) THEN [st |-> "ok", node |-> N("String", key, StrBody(value), <<>>)]   \* wildcard_match("\"*\"", value)
   ELSE IF RustI64(value) THEN [st |-> "ok", node |-> N("Number", key, value, <<>>)]
   ELSE IF IsBoolLit(value) THEN [st |-> "ok", node |-> N("Boolean", key, value, <<>>)]
   ELSE LET z == ParseSize(value) IN [st |-> z.st, node |-> N("Number", key, z.num, <<>>)]
@@ -572,7 +610,8 @@ P_Value ==
 P_Include ==
   /\ IsKV /\ IndexOf(Line, " ") # 0 /\ KeyOf(Line) = "include"
   /\ LET v == ValueOf(Line) IN
-     IF ~IsStrLit(v) THEN Finish(ErrP("incvalue", Cur.f, LineNo))
+     IF "LoneQuoteSlice" \in Dev /\ v = QUOTE THEN Finish(PanicR("value[1..0]"))
+     ELSE IF ~IsStrLit(v) THEN Finish(ErrP("incvalue", Cur.f, LineNo))
      ELSE IF FileOfPath(StrBody(v)) = 0 THEN Finish(ErrP("incopen", Cur.f, LineNo))
      ELSE /\ pstk' = Append(Advance(pstk), [f |-> FileOfPath(StrBody(v)), ln |-> 0])
           /\ sstk' = Append(sstk, Frame("Inc", "temp_included_section"))
@@ -697,7 +736,8 @@ Spec == [][Next]_vars /\ WF_vars(Next)
 (* C15 on the model of the code                                            *)
 (***************************************************************************)
 Agree(r, m, fl) ==
-  IF m.kind = "ok" THEN r.kind = "ok" /\ r.cfg = m.cfg
+  IF m.kind = "ok" THEN \/ r.kind = "ok" /\ r.cfg = m.cfg
+                        \/ m.lenient /\ r.kind \in {"parse-error", "tree-error"}
   ELSE IF m.kind \in {"validation", "reject"} THEN r.kind \in {"parse-error", "tree-error"}
   ELSE /\ r.kind = "parse-error"                \* a syntax error names file and line
        /\ \/ m.loc.rule = "none"
